@@ -28,7 +28,7 @@ PSS_DEPENDENT = ('hodge', 'unhodge', 'polarity', 'unpolarity', 'rp')
 def floors(tier):
     f = {'distinct_nontrivial': 3000 if tier == 'quick' else 40000, 'relabel_cases': 1500, 'accessor_reads': 1500,
          'matrix_blade_pairs': 1500, 'rejection_pairs_metric_differs': 300, 'rejection_same_pqr_different_order': 60,
-         'rejection_basis_differs': 30, 'rejection_registered_function': 100, 'custom_basis_algebras': 40, 'named_algebras': 3,
+         'rejection_basis_differs': 30, 'rejection_with_warm_cache': 300, 'rejection_registered_function': 100, 'custom_basis_algebras': 40, 'named_algebras': 3,
          'respelled_blades_in_bases': 40}
     for o in ALLOPS:
         f['op_' + o] = 25 if tier == 'quick' else 300
@@ -198,6 +198,25 @@ def relabel_unit(ctx, unit):
             ctx.violation('coefficient accessor does not commute with the relabelling', cid, config=cfg,
                           detail='[spelling, custom-basis read, default-basis read, first-principles value]', mismatches=bad[:6],
                           blades=[A.bin2canon[k] for k in ks], values=[str(v) for v in vals])
+    # positional (value-list) constructors: values are taken in the order the basis lists the blades of that grade
+    for g in range(d + 1):
+        cid = [name, 'positional-constructor', g]
+        if not ctx.want(cid):
+            continue
+        order = [A.canon2bin[nm] for nm in A.canon2bin if len(nm) - 1 == g]
+        vals = [Fr(3 + 2 * i) for i in range(len(order))]
+        st, mv = ctx.guarded(20, lambda: A.purevector(list(vals), grade=g))
+        if st != 'ok':
+            if st == 'exc':
+                ctx.note_raised(mv, 'purevector')
+            continue
+        ctx.count('positional_constructor_reads')
+        ctx.case(cid)
+        got = mv_dict(mv)
+        want = dict(zip(order, vals))
+        if elem_diff(got, want):
+            ctx.violation('value list is not assigned in the order of the basis', cid, config=cfg, grade=g,
+                          got={A.bin2canon[k]: str(v) for k, v in got.items()}, expected={A.bin2canon[k]: str(v) for k, v in want.items()})
     # matrix representation of A is multiplicative on basis blades
     if d <= 4:
         import numpy as np
@@ -272,14 +291,23 @@ def reject_unit(ctx, unit):
             cid = ['reject', na, nb, op]
             if not ctx.want(cid):
                 continue
+            warm = rng.random() < 0.6
+            y_own = gen.mv_from(A, tuple(y.keys()), [Fr(7)])      # same key pattern as the foreign operand, but of A itself
             if op == 'registered':
                 def mixprod(a, b):
                     return a * b + a
                 f = A.register(mixprod)
+                if warm:
+                    ctx.guarded(20, f, x, y_own)
                 st, r = ctx.guarded(20, f, x, y)
                 ctx.count('rejection_registered_function')
             else:
+                if warm:
+                    # the operator has already been used (and cached) for exactly this key pattern inside A
+                    ctx.guarded(20, lambda: getattr(A, op)(x, y_own))
                 st, r = ctx.guarded(20, lambda: getattr(A, op)(x, y))
+            if warm:
+                ctx.count('rejection_with_warm_cache')
             if st == 'timeout':
                 continue
             ctx.count({'metric': 'rejection_pairs_metric_differs', 'dimension': 'rejection_pairs_dimension_differs',
